@@ -1,6 +1,8 @@
 import TxdbusModel.Proofs.Msg.Main
+import TxdbusModel.Msg.WireCodec
 import TxdbusModel.Proofs.Wire.TopLevel
 import TxdbusModel.Proofs.Wire.Normal
+import TxdbusModel.Proofs.Wire.ConfTop
 /-
 C03 composed with C01: the message model instantiated with the code model of txdbus's own wire codec
 (Wire/Code.lean) as the body codec, and the lemmas behind `C01_roundtrip` / `C02_decode` (Proofs/Wire/TopLevel.lean,
@@ -8,18 +10,6 @@ Normal.lean: `Code.marshal_eq_spec`, `Code.unmarshal_eq_spec`, `Code.fromSpecFie
 hypotheses of `parse_marshal` and `parse_foreign`.
 -/
 namespace Txdbus.Msg
-
-/-- The body codec of txdbus itself: the code model of `marshal.marshal` / `marshal.unmarshal` (Wire/Code.lean,
-C01/C02) with step budget `fuel`; a body is the Python `variableList`, a decoded body the list of values. -/
-def wireCodec (fuel : Nat) : BodyCodec PyVal where
-  marshal := fun sg body fds =>
-    match Code.marshal fuel sg (body.getD .none) 0 true fds with
-    | .ok (_, bs, fds') => .ok (bs, fds')
-    | .error e => .error e
-  unmarshal := fun sg raw le fds =>
-    match Code.unmarshal fuel sg raw 0 le fds with
-    | .ok (_, vals) => .ok (.list vals)
-    | .error e => .error e
 
 theorem render_noNul (ts : List Ty) : (renderAll ts).contains nul = false := by
   have h := renderAll_ascii ts
@@ -216,5 +206,177 @@ theorem parse_foreign_wire (T : Tables) (hT : T.OK) (w : SpecMsg) (hw : w.valid 
   cases hr : renderAll ts with
   | nil => exact absurd hr hne
   | cons ch cs => rfl
+
+
+/-! ## The composition in one piece: `hC` discharged for `wireCodec`, every constructor, with or without a descriptor list -/
+
+/-- The codec hypothesis `hC` of `parse_marshal`, for `wireCodec`, from the two facts C01 proves about a body in its
+domain: what `marshal` returns for it, and that `unmarshal` of those bytes returns `values`. -/
+theorem wireCodec_hC (fuel : Nat) (sg : List Char) (pv : PyVal) (oob fdsOut fdsArg : Option (List PyVal))
+    (bs : Bytes) (values : List PyVal)
+    (hm : Code.marshal fuel sg pv 0 true oob = .ok (bs.length, bs, fdsOut))
+    (hu : Code.unmarshal fuel sg bs 0 true fdsArg = .ok (bs.length, values)) :
+    (wireCodec fuel).marshal sg (some pv) oob = .ok (bs, fdsOut) ∧
+      (wireCodec fuel).unmarshal sg bs true fdsArg = .ok (.list values) := by
+  simp only [wireCodec, Option.getD_some, hm, hu, and_self]
+
+/-- `parse_marshal` for `wireCodec`, given C01's two facts about the body (`hm`, `hu`): no hypothesis about the codec is
+left.  The three theorems below supply `hm` / `hu` from C01's theorems. -/
+theorem parse_marshal_wire_core (T : Tables) (hT : T.OK) (na : Char → Bool) (maxLen : Nat) (st st' : St)
+    (c : Call PyVal) (m : Msg PyVal) (hs : 1 ≤ st.nextSerial)
+    (sg : List Char) (pv : PyVal) (bs : Bytes) (fdsOut fdsArg : Option (List PyVal)) (values : List PyVal) (fuel : Nat)
+    (hsig : c.signature = some sg) (hne : sg ≠ []) (hnul : sg.contains nul = false) (hbody : c.body = some pv)
+    (hm : Code.marshal fuel sg pv 0 true c.oob = .ok (bs.length, bs, fdsOut))
+    (hu : Code.unmarshal fuel sg bs 0 true fdsArg = .ok (bs.length, values))
+    (h : construct T (wireCodec fuel) na maxLen st c = (st', .ok m)) :
+    ∃ m' : Msg PyVal, parseMessage T (wireCodec fuel) m.raw fdsArg = .ok m' ∧
+      m'.cls = m.cls ∧ m'.serial = m.serial ∧ m'.expectReply = m.expectReply ∧ m'.autoStart = m.autoStart ∧
+      (∀ x, m'.attrs x = plain (m.attrs x)) ∧
+      m'.body = some (.list values) ∧ m'.rawBody = bs ∧ m.rawBody = bs ∧ m.body = some pv := by
+  obtain ⟨hcm, hcu⟩ := wireCodec_hC fuel sg pv c.oob fdsOut fdsArg bs values hm hu
+  have hnonul : Main.SigNoNul c := by
+    intro sg' hsg'
+    rw [hsig] at hsg'
+    simp only [Option.some.injEq] at hsg'
+    subst hsg'
+    exact hnul
+  obtain ⟨sm, hb⟩ := construct_ok T hT (wireCodec fuel) na maxLen st st' c m h
+  have hsigattr : m.attrs .signature = .str .plain sg := by
+    rw [hb.attrs .signature (by decide), Main.pre_signature, hsig]; rfl
+  have hpb : c.pre.body = c.body := by cases c <;> rfl
+  have hmbody : m.body = some pv := by rw [hb.body, hpb, hbody]
+  have hC : ∀ sg', m.attrs .signature = .str .plain sg' → sg' ≠ [] →
+      ∃ bytes fds', (wireCodec fuel).marshal sg' m.body c.oob = .ok (bytes, fds') ∧
+        (wireCodec fuel).unmarshal sg' bytes true fdsArg = .ok (.list values) := by
+    intro sg' hsg' _
+    rw [hsigattr] at hsg'
+    simp only [PyVal.str.injEq, true_and] at hsg'
+    subst hsg'
+    exact ⟨bs, fdsOut, by rw [hmbody]; exact hcm, hcu⟩
+  obtain ⟨m', p1, p2, p3, p4, p5, p6, p7, p8, p9, p10, _⟩ :=
+    Main.parse_marshal T hT (wireCodec fuel) na maxLen st st' c m hs hnonul h fdsArg (.list values) hC
+  have htr : truthy (m.attrs .signature) = true := by
+    rw [hsigattr]
+    cases sg with
+    | nil => exact absurd rfl hne
+    | cons ch cs => simp [truthy]
+  rw [htr, if_pos rfl] at p7
+  have hraw : m.rawBody = bs := by
+    rcases hb.bodyCase with ⟨ht, _, _⟩ | ⟨sg', fds', hs1, _, hs3, _⟩
+    · rw [← hb.attrs .signature (by decide), htr] at ht; cases ht
+    · rw [← hb.attrs .signature (by decide), hsigattr] at hs1
+      simp only [PyVal.str.injEq, true_and] at hs1
+      subst hs1
+      rw [hpb, hbody, hcm] at hs3
+      simp only [Except.ok.injEq, Prod.mk.injEq] at hs3
+      exact hs3.1.symm
+  exact ⟨m', p1, p2, p3, p4, p5, p6, p7, by rw [p10, hraw], hraw, hmbody⟩
+
+/-- **C03 ∘ C01.**  Any of the four constructors, called without a descriptor list (`oobFDs=None`) or with an empty one
+(`oobFDs=[]`, method calls), with a non-empty signature `renderAll ts` and a body in C01's domain: `ts` without empty
+structs, the `variableList` `pv` with items `items` conforming to `ts` and denoting the spec values `vs` (`Code.RepFields`;
+with `oobFDs=None` the relation is taken with `fd = false`: no descriptors), dict keys hashable and distinct, the values
+within the wire limits (`Spec.encodeAll … = some bs`).  Then `parseMessage(m.rawMessage, fdl)` returns the same class,
+serial, flags, header attributes and the body `Code.plainList items` (C01's normal form of the values). -/
+theorem parse_marshal_c01_gen (T : Tables) (hT : T.OK) (na : Char → Bool) (maxLen : Nat) (st st' : St)
+    (c : Call PyVal) (m : Msg PyVal) (hs : 1 ≤ st.nextSerial)
+    (ts : List Ty) (pv : PyVal) (items : List PyVal) (vs : List Val) (fdl : List PyVal) (bs : Bytes) (fuel : Nat)
+    (hsig : c.signature = some (renderAll ts)) (hne : renderAll ts ≠ []) (hbody : c.body = some pv)
+    (hoob : c.oob = none ∨ c.oob = some [])
+    (hts : allWF ts = true) (hitems : Code.topItems pv = .ok items)
+    (hrep : Code.RepFields fdl vs c.oob.isSome ts items 0 (if c.oob.isSome then fdl.length else 0))
+    (hkeys : Code.KeysOKList items)
+    (henc : Spec.encodeAll Code.genAlign (Txdbus.endianOf true) ts vs 0 = some bs) (hfuel : depthAll vs ≤ fuel)
+    (h : construct T (wireCodec fuel) na maxLen st c = (st', .ok m)) :
+    ∃ m' : Msg PyVal, parseMessage T (wireCodec fuel) m.raw (some fdl) = .ok m' ∧
+      m'.cls = m.cls ∧ m'.serial = m.serial ∧ m'.expectReply = m.expectReply ∧ m'.autoStart = m.autoStart ∧
+      (∀ x, m'.attrs x = plain (m.attrs x)) ∧
+      m'.body = some (.list (Code.plainList items)) ∧ m'.rawBody = bs ∧ m.rawBody = bs ∧ m.body = some pv := by
+  rcases hoob with ho | ho
+  · rw [ho] at hrep
+    simp only [Option.isSome_none, Bool.false_eq_true, if_false] at hrep
+    have hm := marshal_eq_spec_none true ts pv items vs fdl 0 0 0 bs fuel hitems hrep henc hfuel
+    have hu := Code.unmarshal_eq_spec Code.genAlign Code.padOK_gen Code.genAlign_pos true (some fdl) ts vs 0 bs [] []
+      (Code.plainList items) fuel hts henc rfl (Code.fromSpecFields_of_rep fdl vs false ts items 0 0 hrep hkeys) hfuel
+    simp only [List.nil_append, List.append_nil] at hu
+    exact parse_marshal_wire_core T hT na maxLen st st' c m hs (renderAll ts) pv bs none (some fdl)
+      (Code.plainList items) fuel hsig hne (render_noNul ts) hbody (by rw [ho]; exact hm) hu h
+  · rw [ho] at hrep
+    simp only [Option.isSome_some, if_true] at hrep
+    have hm : Code.marshal fuel (renderAll ts) pv 0 true (some []) = .ok (bs.length, bs, some fdl) := by
+      have h' := Code.marshal_eq_spec Code.genAlign Code.padOK_gen Code.genAlign_pos true ts pv items vs fdl fdl.length
+        0 bs fuel hitems hrep henc hfuel
+      simpa using h'
+    have hu := Code.unmarshal_eq_spec Code.genAlign Code.padOK_gen Code.genAlign_pos true (some fdl) ts vs 0 bs [] []
+      (Code.plainList items) fuel hts henc rfl (Code.fromSpecFields_of_rep fdl vs true ts items 0 fdl.length hrep hkeys) hfuel
+    simp only [List.nil_append, List.append_nil] at hu
+    exact parse_marshal_wire_core T hT na maxLen st st' c m hs (renderAll ts) pv bs (some fdl) (some fdl)
+      (Code.plainList items) fuel hsig hne (render_noNul ts) hbody (by rw [ho]; exact hm) hu h
+
+/-- The same with C01's EXECUTABLE hypotheses (`C01_roundtrip_checked`: `Code.toSpecTop` computes the spec values and
+the descriptors of the body, `Code.keysOKCheck` checks the dict keys - what C01's harness certifies for every generated
+case), for a call with `oobFDs=[]`.  The decoded body is `Code.plainBList items` (a `Boolean` wrapper decodes to its bool). -/
+theorem parse_marshal_c01_checked_gen (T : Tables) (hT : T.OK) (na : Char → Bool) (maxLen : Nat) (st st' : St)
+    (c : Call PyVal) (m : Msg PyVal) (hs : 1 ≤ st.nextSerial)
+    (n : Nat) (ts : List Ty) (pv : PyVal) (vs : List Val) (fdl : List PyVal) (bs : Bytes) (fuel : Nat)
+    (hsig : c.signature = some (renderAll ts)) (hne : renderAll ts ≠ []) (hbody : c.body = some pv)
+    (hoob : c.oob = some [])
+    (hts : allWF ts = true) (hchk : Code.toSpecTop n ts pv = some (vs, fdl)) (hkeys : Code.keysOKCheck pv = true)
+    (henc : Spec.encodeAll Code.genAlign (Txdbus.endianOf true) ts vs 0 = some bs) (hfuel : depthAll vs ≤ fuel)
+    (h : construct T (wireCodec fuel) na maxLen st c = (st', .ok m)) :
+    ∃ items, Code.structFields pv = some items ∧
+    ∃ m' : Msg PyVal, parseMessage T (wireCodec fuel) m.raw (some fdl) = .ok m' ∧
+      m'.cls = m.cls ∧ m'.serial = m.serial ∧ m'.expectReply = m.expectReply ∧ m'.autoStart = m.autoStart ∧
+      (∀ x, m'.attrs x = plain (m.attrs x)) ∧
+      m'.body = some (.list (Code.plainBList items)) ∧ m'.rawBody = bs ∧ m.rawBody = bs ∧ m.body = some pv := by
+  obtain ⟨items, hitems, hrep⟩ := Code.toSpecTop_sound n ts pv vs fdl hchk
+  have hk := Code.keysOKB_fields pv items hitems (Code.keysOKCheck_sound pv hkeys)
+  have hm : Code.marshal fuel (renderAll ts) pv 0 true (some []) = .ok (bs.length, bs, some fdl) := by
+    have h' := Code.marshal_eq_spec_conf Code.genAlign Code.padOK_gen Code.genAlign_pos true ts pv items vs fdl
+      fdl.length 0 bs fuel hitems hrep henc hfuel
+    simpa using h'
+  have hu := Code.unmarshal_eq_spec Code.genAlign Code.padOK_gen Code.genAlign_pos true (some fdl) ts vs 0 bs [] []
+    (Code.plainBList items) fuel hts henc rfl (Code.fromSpecFields_of_conf fdl vs true ts items 0 fdl.length hrep hk) hfuel
+  simp only [List.nil_append, List.append_nil] at hu
+  exact ⟨items, hitems, parse_marshal_wire_core T hT na maxLen st st' c m hs (renderAll ts) pv bs (some fdl) (some fdl)
+    (Code.plainBList items) fuel hsig hne (render_noNul ts) hbody (by rw [hoob]; exact hm) hu h⟩
+
+/-- Without a body (no signature, or the empty one) nothing is asked of the codec: `parse_marshal`'s premise is vacuous. -/
+theorem parse_marshal_no_body_gen (T : Tables) (hT : T.OK) (na : Char → Bool) (maxLen : Nat) (st st' : St)
+    (c : Call PyVal) (m : Msg PyVal) (hs : 1 ≤ st.nextSerial) (fuel : Nat) (fdsArg : Option (List PyVal))
+    (hsig : c.signature = none ∨ c.signature = some [])
+    (h : construct T (wireCodec fuel) na maxLen st c = (st', .ok m)) :
+    ∃ m' : Msg PyVal, parseMessage T (wireCodec fuel) m.raw fdsArg = .ok m' ∧
+      m'.cls = m.cls ∧ m'.serial = m.serial ∧ m'.expectReply = m.expectReply ∧ m'.autoStart = m.autoStart ∧
+      (∀ x, m'.attrs x = plain (m.attrs x)) ∧ m'.body = none ∧ m'.rawBody = [] ∧ m.rawBody = [] := by
+  have hnonul : Main.SigNoNul c := by
+    intro sg hsg
+    rcases hsig with h0 | h0 <;> rw [h0] at hsg
+    · cases hsg
+    · simp only [Option.some.injEq] at hsg; subst hsg; rfl
+  obtain ⟨sm, hb⟩ := construct_ok T hT (wireCodec fuel) na maxLen st st' c m h
+  have hsigattr : m.attrs .signature = strAttr c.signature := by
+    rw [hb.attrs .signature (by decide), Main.pre_signature]
+  have hfalsy : truthy (m.attrs .signature) = false := by
+    rw [hsigattr]; rcases hsig with h0 | h0 <;> rw [h0] <;> rfl
+  have hC : ∀ sg, m.attrs .signature = .str .plain sg → sg ≠ [] →
+      ∃ bytes fds', (wireCodec fuel).marshal sg m.body c.oob = .ok (bytes, fds') ∧
+        (wireCodec fuel).unmarshal sg bytes true fdsArg = .ok PyVal.none := by
+    intro sg hsg hne
+    rw [hsigattr] at hsg
+    rcases hsig with h0 | h0 <;> rw [h0] at hsg
+    · cases hsg
+    · simp only [strAttr, PyVal.str.injEq, true_and] at hsg; exact absurd hsg.symm hne
+  obtain ⟨m', p1, p2, p3, p4, p5, p6, p7, p8, p9, p10, _⟩ :=
+    Main.parse_marshal T hT (wireCodec fuel) na maxLen st st' c m hs hnonul h fdsArg PyVal.none hC
+  rw [hfalsy] at p7
+  have hraw : m.rawBody = [] := by
+    rcases hb.bodyCase with ⟨_, hr, _⟩ | ⟨sg', fds', hs1, hne', _, _⟩
+    · exact hr
+    · rw [Main.pre_signature] at hs1
+      rcases hsig with h0 | h0 <;> rw [h0] at hs1
+      · cases hs1
+      · simp only [strAttr, PyVal.str.injEq, true_and] at hs1; exact absurd hs1.symm hne'
+  exact ⟨m', p1, p2, p3, p4, p5, p6, by simpa using p7, by rw [p10, hraw], hraw⟩
 
 end Txdbus.Msg
